@@ -21,6 +21,7 @@ static struct vsock vs[NS];
 /* separate objects per socket and direction (the first socket can carry frames beyond 64 KiB) */
 static unsigned char in0[BIGCAP], out0[BIGCAP], in1[CAP], out1[CAP], in2[CAP], out2[CAP];
 #define FD0 100
+static void vpump(int fd);
 static struct vsock* S(int fd) { int i = fd - FD0; if (i < 0 || i >= NS || !vs[i].used) return 0; return &vs[i]; }
 int vp_sock_new(void) { for (int i = 0; i < NS; i++) if (!vs[i].used) { vs[i].in = i == 0 ? in0 : i == 1 ? in1 : in2; vs[i].out = i == 0 ? out0 : i == 1 ? out1 : out2; vs[i].in_cap = vs[i].out_cap = i == 0 ? BIGCAP : CAP; vs[i].used = 1; vs[i].open = 1; vs[i].closed_by_peer = 0; vs[i].fragment = 0; vs[i].in_n = vs[i].in_pos = vs[i].out_n = 0; return FD0 + i; } return -1; }
 void vp_sock_feed(int fd, const void* data, int n) { struct vsock* s = S(fd); const unsigned char* d = (const unsigned char*)data; for (int i = 0; i < n && s->in_n < s->in_cap; i++) s->in[s->in_n++] = d[i]; }
@@ -33,6 +34,7 @@ long read(int fd, void* buf, size_t size)
 	struct vsock* s = S(fd);
 	if (!s) { PASS(0, fd, buf, size); }
 	if (!s->open) return -1;
+	vpump(fd);
 	int avail = s->in_n - s->in_pos;
 	if (avail <= 0 || size == 0) return 0;
 	int n = (int)size < avail ? (int)size : avail;
@@ -61,6 +63,7 @@ int ioctl(int fd, unsigned long req, ...)
 	struct vsock* s = S(fd);
 	if (!s) { PASS(16, fd, req, p); }
 	if (!s->open) return -1;
+	vpump(fd);
 	*p = s->in_n - s->in_pos;
 	return 0;
 }
@@ -73,6 +76,7 @@ int select(int nfds, void* rset, void* wset, void* eset, void* timeout)
 	for (int i = 0; i < NS; i++) {
 		int fd = FD0 + i; unsigned long bit = 1UL << (fd % 64); unsigned long* w = &r[fd / 64];
 		if (!(*w & bit)) continue;
+		if (vs[i].used && vs[i].open) vpump(fd);
 		if (vs[i].used && vs[i].open && (vs[i].in_n - vs[i].in_pos > 0 || vs[i].closed_by_peer)) ready++;
 		else *w &= ~bit;
 	}
@@ -94,3 +98,47 @@ static int vaddr(int fd, void* addr, unsigned* len, int port)
 }
 int getpeername(int fd, void* addr, unsigned* len) { if (!S(fd)) { PASS(52, fd, addr, len); } return vaddr(fd, addr, len, 40000); }
 int getsockname(int fd, void* addr, unsigned* len) { if (!S(fd)) { PASS(51, fd, addr, len); } return vaddr(fd, addr, len, 80); }
+
+/* ---- client side: socket() / connect() / getaddrinfo(), and a synchronous "server runs when the client blocks" hook.
+   vp_sock_set_server(fn): every connect()ed socket gets a paired server-side socket; when the client reads or polls with
+   nothing to read, the bytes it wrote so far are delivered to the pair, fn(server_fd) runs to completion (the real
+   server code on the real request bytes), and whatever it wrote is delivered back to the client. */
+static void (*vserver)(int);
+static int vpair[NS]; static int vserved[NS];
+void vp_sock_set_server(void (*fn)(int)) { vserver = fn; for (int i = 0; i < NS; i++) { vpair[i] = -1; vserved[i] = 0; } }
+static void vpump(int fd)
+{
+	int i = fd - FD0;
+	if (!vserver || i < 0 || i >= NS || vpair[i] < 0 || vserved[i]) return;
+	struct vsock* c = &vs[i]; struct vsock* sv = S(vpair[i]);
+	if (c->in_n - c->in_pos > 0 || c->out_n == 0) return;
+	vserved[i] = 1;
+	for (int k = 0; k < c->out_n && sv->in_n < sv->in_cap; k++) sv->in[sv->in_n++] = c->out[k];
+	sv->closed_by_peer = 0;
+	vserver(vpair[i]);
+	for (int k = 0; k < sv->out_n && c->in_n < c->in_cap; k++) c->in[c->in_n++] = sv->out[k];
+	c->closed_by_peer = 1;          /* the server is done with this connection after answering */
+}
+int socket(int dom, int type, int proto) { (void)dom; (void)type; (void)proto; return vp_sock_new(); }
+int connect(int fd, const void* addr, unsigned len)
+{
+	(void)addr; (void)len;
+	struct vsock* s = S(fd); if (!s) return -1;
+	if (vserver) { int p = vp_sock_new(); if (p < 0) return -1; vpair[fd - FD0] = p; vserved[fd - FD0] = 0; }
+	return 0;
+}
+int vp_sock_peer_of(int fd) { int i = fd - FD0; return (i >= 0 && i < NS) ? vpair[i] : -1; }
+/* struct addrinfo (x86-64): flags@0 family@4 socktype@8 protocol@12 addrlen@16 addr@24 canonname@32 next@40 */
+static unsigned char vai[48]; static unsigned char vsa[16];
+int getaddrinfo(const char* host, const char* service, const void* hints, void** res)
+{
+	(void)service; (void)hints;
+	if (!host || !host[0]) return -2;
+	for (int i = 0; i < 48; i++) vai[i] = 0;
+	for (int i = 0; i < 16; i++) vsa[i] = 0;
+	vsa[0] = 2; vsa[4] = 127; vsa[7] = 1;
+	*(int*)(vai + 4) = 2; *(int*)(vai + 8) = 1; *(unsigned*)(vai + 16) = 16; *(unsigned char**)(vai + 24) = vsa;
+	*res = vai;
+	return 0;
+}
+void freeaddrinfo(void* p) { (void)p; }
